@@ -32,7 +32,11 @@ RULE = ("family par/split: single splits of both producers for every len ≤ 24 
         "DoubleEndedIterator / ExactSizeIterator calls (nth, nth_back, skip, step_by, take, rev, len, count, last, fold, zip, peekable … "
         "≤ 12 calls, ≤ 2 nested adaptors on the concrete type) on Iterator2D::new_partition(g, lo, hi) for every kind of window and on "
         "Producer::into_iter of split pieces of both producers, against the same program on Vec::into_iter() over the piece's points "
-        "(what rayon's step_by/skip/take/rev/zip adaptors do to a split-off piece); primitive programs against the Lean state machine (K part2_prog)")
+        "(what rayon's step_by/skip/take/rev/zip adaptors do to a split-off piece); primitive programs against the Lean state machine (K part2_prog). "
+        "sweep also: piecewise integrands whose jumps sit exactly ON the sample points of the rule (staircase counting the nodes <= x, long-pass "
+        "edges, top-hat windows; 2-D staircase and quadrant edge) through Simpson 1-D divs 50..1000(4000) on four intervals and 2-D divs 8..40(130) "
+        "on two rectangles; flat SignalIdlerWavelengthArray / SignalIdlerFrequencyArray lists of 0, 1, 2, 3, 4, 5, 7, ... 1001 (20001) entries, odd "
+        "counts included: parallel traversal = sequential traversal, *_range = sequential point-by-point evaluation, on every pool size 1..16")
 RESIDUAL = ("(a) floating-point re-association error of parallel sums and rounding drift of re-derived 1-D sub-range endpoints: "
             "measured (≤ 1e-12 / ≤ 1e-14), exact-arithmetic invariance is proved; (b) deadlock freedom of nested regions is a "
             "property of rayon's work-stealing scheduler: observed under a time cap only; (c) which split trees rayon requests "
